@@ -171,6 +171,7 @@ type vpIdP struct {
 	signAlg        string                               // RS256 | none | HS256pub | otherkey
 	issueRefresh   bool
 	rotate         bool
+	logoutStatus   int    // status of the backend-logout endpoint (0 => 200)
 	advertise      string // discovery: code_challenge_methods_supported  both | plain | s256 | absent
 	refreshMode    string // ok | fail | unsupported(no RT issued)
 	idTokenTTL     int    // seconds
@@ -644,6 +645,10 @@ func (p *vpIdP) hUserinfo(rw http.ResponseWriter, r *http.Request) {
 func (p *vpIdP) hLogout(rw http.ResponseWriter, r *http.Request) {
 	p.mu.Lock()
 	p.logCall("logout", r.URL.Query(), "ok")
+	st := p.logoutStatus
 	p.mu.Unlock()
-	rw.WriteHeader(200)
+	if st == 0 {
+		st = 200
+	}
+	rw.WriteHeader(st)
 }
